@@ -459,6 +459,7 @@ def lean_obligations(ctx):
             if cur != ctx.translated_text:
                 open(tp, "w").write(ctx.translated_text)
         ok, msg = _lean_obligations(ctx)
+        infra.pin_rdsmodel(ctx.workdir)
         if not ok:
             return ok, msg
         # refinement obligations between the translated C source and the model (T0)
